@@ -229,17 +229,24 @@ fn dce_block_with_live(
                 default,
             } => {
                 let expr = dce_expr(expr);
+                // Inside the clauses the binding shadows a variable of the same name
+                // (`switch x := x.(type)`): a use of that variable after the switch is not a
+                // use of the binding, and Go rejects a binding that no clause uses.
+                let mut clause_live = live.clone();
+                if let Some(bname) = &bind {
+                    clause_live.remove(bname);
+                }
                 let mut new_cases: Vec<(crate::go::goty::GoType, ast::Block)> =
                     Vec::with_capacity(cases.len());
                 let mut cases_live_in: HashSet<String> = HashSet::new();
                 for (t, blk) in cases {
-                    let (b2, live_in) = dce_block_with_live(blk, &live);
+                    let (b2, live_in) = dce_block_with_live(blk, &clause_live);
                     cases_live_in.extend(live_in);
                     needs_decl.extend(assigned_vars_in_block(&b2));
                     new_cases.push((t, b2));
                 }
                 let (default_b, default_live_in) = if let Some(b) = default {
-                    let (b2, live_in) = dce_block_with_live(b, &live);
+                    let (b2, live_in) = dce_block_with_live(b, &clause_live);
                     needs_decl.extend(assigned_vars_in_block(&b2));
                     (Some(b2), live_in)
                 } else {
